@@ -5,37 +5,37 @@ HERE = os.path.dirname(os.path.abspath(__file__))
 FIX_COMMITS = []
 CHECKS = {
  'C03': ('model_checking', 'A', 'explicit-state exploration of live BrownianInterval objects (BFS over query histories, deviation-bounded solver-shaped histories) with Chen invariants in every state',
-         "Every reached state of the real object (all query histories to depth 2 over the constructor product, depth 3 on core configurations, solver-shaped sweeps with <=2 deviations) satisfies Chen's relation for W and U on all grid triples, the zero-length rule, antisymmetry, and multi-piece recombination against a root-descent reference decomposition; labelled-noise states decide the W/U identities for all noise values at once.",
+         "Every reached state of the real object (all query histories to depth 2 over the constructor product incl. intervals with t0<0<t1 and t0>0, point evaluations with non-zero w0, float32 objects; depth 3 on core configurations; solver-shaped sweeps with <=2 deviations) satisfies Chen's relation for W and U on all grid triples, the zero-length rule, antisymmetry, and multi-piece recombination against a root-descent reference decomposition; labelled-noise states decide the W/U identities for all noise values at once.",
          "times restricted to the stated grids; canonical key reads private tree fields for de-duplication only; float64"),
  'C04': ('model_checking', 'A', 'explicit-state exploration under a labelled-noise seam; exact covariance M M^T vs closed-form Brownian covariance in every state',
-         "In every reached tree the joint law of all probed W and H statistics is decided exactly (linear map over independent labels => Gaussian; covariance compared entrywise with the Wiener-kernel closed form, which is self-tested against exact rational arithmetic); supplied W/H bridges; Davie/Foster conditional mean and variance as an identity against the logged noise.",
+         "In every reached tree the joint law of all probed W and H statistics is decided exactly (linear map over independent labels => Gaussian; covariance compared entrywise with the Wiener-kernel closed form, which is self-tested against exact rational arithmetic); supplied W/H bridges; samples of shape (B,K) with cross-row independence; twin-sweep histories producing two chains deeper than 64 levels; Davie/Foster conditional mean and variance as an identity against the logged noise.",
          "independence/normality of torch.randn streams with distinct seeds is trusted; grids as stated"),
  'C05': ('model_checking', 'A', 'explicit-state exploration with first-answer oracle (bitwise) on every repeated query',
-         "Every query of every explored history is re-issued in every extension, in order, reversed and through ReverseBrownian; all answers must be torch.equal to the first answer. Histories: full product to depth 2 over 190 configurations (cache 0/1/2/45/None, dt hint or inferred, all Levy modes, shapes), depth 3 on core configurations, solver-shaped forward/backward sweeps across the warm-up with <=2 deviations.",
+         "Every query of every explored history is re-issued in every extension, in order, reversed and through ReverseBrownian; all answers must be torch.equal to the first answer. Answers are snapshots (clones), so in-place mutation of stored tensors is visible. Histories: full product to depth 2 over ~215 configurations (cache 0/1/2/45/None, dt hint or inferred, all Levy modes, shapes, float32, intervals [-1,1] and [1,3], point evaluations), depth 3 on core configurations, solver-shaped forward/backward sweeps across the warm-up with <=2 deviations, deep twin sweeps.",
          "bitwise comparison within one process/thread; grids and schedules as stated"),
  'C06': ('model_checking', 'A', 'explicit-state exploration with twin-object and fresh-object-dictionary oracles (bitwise)',
-         "Every explored history is replayed on a second fresh object with equal entropy (bit-identical answers); in dyadic mode (halfway_tree=True, BrownianTree) every answer in every reached state equals the answer a fresh object gives for that interval, over the full product of histories to depth 2-3 (different query sets, not permutations) incl. sub-tolerance queries; distinct entropies give distinct paths.",
+         "Every explored history is replayed on a second fresh object with equal entropy (bit-identical answers); in dyadic mode (halfway_tree=True, BrownianTree) every answer in every reached state equals the answer a fresh object gives for that interval, over the full product of histories to depth 2-3 (different query sets, not permutations) incl. sub-tolerance queries; distinct entropies give distinct paths; entropy 0 is run on every configuration.",
          "two entropies compared per run (derived from VERIF_SEED); bitwise comparison in one process"),
  'C07': ('model_checking', 'A', 'explicit-state exploration with work/stack/cache meters on every public call; step-count ladder through sdeint',
-         "Every public call over the full constructor product (sizes x Levy modes x cache 0/1/2/45/None x dt hints x tol x halfway x supplied W/H), micro histories incl. 1-ulp and sub-tolerance queries, sweeps across the warm-up with <=2 deviations, and sdeint ladders up to 25000 (thorough 60000) steps returns normally within a node-creation budget, with frame depth at node creation inside a logarithmic allowance and cache entries <= cache_size.",
+         "Every public call over the full constructor product (sizes x Levy modes x cache 0/1/2/45/None x dt hints x tol x halfway x supplied W/H), micro histories incl. 1-ulp and sub-tolerance queries, sweeps across the warm-up with <=2 deviations, 25000-step forward-then-backward sweeps on the object (also under a dt hint far coarser than the steps), and sdeint ladders up to 25000 (thorough 60000) steps returns normally with finite values within a node-creation budget, with frame depth at node creation and at every noise draw inside a logarithmic allowance and cache entries <= cache_size.",
          "non-termination is decided by a deterministic work budget; the frame-depth allowance (200 + 8 log2(T/res)) is a judgement well above the dyadic recursion the design needs and well below the recursion limit"),
  'C12': ('exploration', 'B', 'exhaustive enumeration of output-time subsets of a dyadic lattice x dt x cells against the grid trajectory of the solver\'s own step',
-         "For every subset (size>=2) of the lattice as ts, every dt of the alphabet, every supported solver/noise cell (incl. grad-free Milstein), float32/float64, ts as tensor or list: ys[0] is y0 bitwise, outputs at grid times are the grid states bitwise, outputs inside a step are the linear interpolants, the Brownian queries are exactly the dt-grid steps, values at shared times are invariant under changing other output times, shape/dtype are right.",
+         "For every subset (size>=2) of the lattice as ts, every dt of the alphabet, every supported solver/noise cell (incl. grad-free Milstein), float32/float64, ts as tensor or list: ys[0] is y0 bitwise, outputs at grid times are the grid states bitwise, outputs inside a step are the linear interpolants, the Brownian queries are exactly the dt-grid steps, values at shared times are invariant under changing other output times, shape/dtype are right; ts as list/tuple is bit-identical to a tensor of y0's dtype at non-dyadic times under both global default dtypes; one lattice straddles t=0.",
          "dyadic lattice so that the reference grid equals the library's grid bit-for-bit; reference trajectory uses the library's step (C02 covers step)"),
  'C13': ('fault_enumeration', 'B', 'exhaustive enumeration of restart-point sets (all 2^(N-1) chunkings) against the one-shot solve, bitwise',
-         "Every subset of interior grid points as restart points, every supported cell, extra solver state threaded through extra=True/extra_solver_state, dense and end-point-only outputs: all shared values and the final extra state are torch.equal to the one-shot solve.",
+         "Every subset of interior grid points as restart points, every supported cell, extra solver state threaded through extra=True/extra_solver_state, dense and end-point-only outputs, final time on and off the step grid, 24 batch rows: all shared values and the final extra state are torch.equal to the one-shot solve.",
          "restart points on the step grid (as the property requires); N=6 quick, 8 thorough"),
  'C14': ('model_checking', 'B', 'stateless exploration of the adaptive controller under scripted error answers (full product of length L, deviation bound 2), trial log parsed from a recording Brownian proxy',
-         "Every controller decision sequence within the bounds terminates (trial cap 2000), tiles [ts[0],ts[-1]] contiguously and ends exactly at ts[-1], respects dt_min except for the clipped last trial, accepts iff error<=1 or dt_min reached, retries rejected trials strictly smaller, and returns the two-half-step solution on the accepted steps (bitwise) with interpolated interior outputs; the error norm equals an independent implementation on an exhaustive grid; true error does not increase along tolerance ladders on GBM families.",
+         "Every controller decision sequence within the bounds terminates (trial cap 2000), tiles [ts[0],ts[-1]] contiguously and ends exactly at ts[-1], respects dt_min except for the clipped last trial, accepts iff error<=1 or dt_min reached, retries rejected trials strictly smaller, accepts a step with error>1 only when a retry shrunk by the documented facmin would be at dt_min, and returns the two-half-step solution on the accepted steps (bitwise) with interpolated interior outputs; the error norm equals an independent implementation on an exhaustive grid; true error does not increase along tolerance ladders on GBM families.",
          "error answers from a 6-letter alphabet; 4 solver cells; the ladder uses 64 fixed paths and a factor-2 slack"),
  'C16': ('exploration', 'C+D', 'exhaustive enumeration of interface subsets x cells (bitwise vs the (f,g) variant) and of derived operators vs einsum definitions from explicit Jacobians',
          "All 27 method subsets that define drift and diffusion, plain and renamed through `names`, on every supported cell: bit-identical solution or an explicit method-missing error, never a different number. g_prod, the Milstein g dg v term and both dg_ga_jvp_column_sum implementations equal their index definitions on programs with non-symmetric Jacobians and non-commuting columns.",
          "program alphabet of mc/zoo.py; user-side products are written like the library defaults so bitwise equality is meaningful"),
  'C19': ('exploration', 'C', 'exhaustive enumeration of the configuration matrix of sdeint/sdeint_adjoint against the documentation table; spying Brownian proxy',
-         "Full product sde_type x noise_type x method x levy x {bm given, None} x adaptive x logqp (x grad_free), adjoint_method for every supported forward cell, 92 malformed-argument cases in both entry points, and the default-method table: documented cells run (and the solver that queries the proxy is the documented one), every other forward cell raises ValueError with zero Brownian queries, inadmissible adjoint methods raise out of backward() with no gradient populated.",
+         "Full product sde_type x noise_type x method x levy x {bm given, None} x adaptive x logqp (x grad_free), adjoint_method for every supported forward cell, 98 malformed-argument cases in both entry points, each with a well-formed control call that must run, and the default-method table: documented cells run (and the solver that queries the proxy is the documented one), every other forward cell raises ValueError with zero Brownian queries, inadmissible adjoint methods raise out of backward() with no gradient populated.",
          "oracle table transcribed from DOCUMENTATION.md and solver docstrings (log_ode from its module docstring); one tiny problem per (sde_type, noise_type)"),
  'C08': ('exploration', 'C+D', 'exhaustive enumeration of cells x programs x ts/dt patterns; full Jacobian by backprop vs central finite differences',
-         "For every supported solver/noise cell (incl. grad-free Milstein, log-ODE with Davie and Foster, adaptive with saturated step factor) the complete Jacobian of all output entries with respect to y0 and every parameter entry obtained by backprop equals central differences of sdeint with the Brownian object held fixed (2e-6 relative; observed 5e-10). Linearity in the loss weights makes this a statement about all loss weightings.",
+         "For every supported solver/noise cell (incl. grad-free Milstein, log-ODE with Davie and Foster, adaptive with saturated step factor) the complete Jacobian of all output entries with respect to y0 and every parameter entry obtained by backprop equals central differences of sdeint with the Brownian object held fixed (2e-6 relative; observed 5e-10), with y0 requiring grad and with parameters only. Linearity in the loss weights makes this a statement about all loss weightings.",
          "program alphabet of mc/zoo.py; float64 differences with step 1e-6"),
  'C09': ('exploration', 'C+D', 'exhaustive enumeration of the admissible adjoint matrix (exact forward equality, gradient-target subsets, loss-support subsets) plus a bounded dt ladder with calibrated ceilings',
          "On all 92 admissible (sde_type, noise_type, method, adjoint_method) cells sdeint_adjoint returns torch.equal values to sdeint (also extra/logqp); for every subset of {y0, parameters} (requires_grad and adjoint_params styles) exactly the requested tensors receive gradients and their values do not depend on the request set; gradients are additive over every subset of output times. Along dt = 2^-3..2^-7(9) with a fixed 128-path batch the relative gradient error against backprop and closed-form GBM gradients at least halves and stays under ceilings calibrated at 4x the worst of 16 entropies.",
@@ -47,22 +47,22 @@ CHECKS = {
          "AdjointSDE.f, g_prod, f_and_g_prod and the diagonal Milstein term equal the augmented Stratonovich adjoint fields converted to the SDE's calculus by the generic Ito-Stratonovich rule with explicit Jacobians (1e-10), for parameter sets incl. unused parameters; no graph under no_grad; derivative through the fields matches finite differences when enabled.",
          "first derivatives of the user program by torch.autograd are trusted"),
  'C15': ('exploration', 'D', 'exhaustive enumeration of programs x step sizes x Gauss-Hermite increment grids (single step via scripted Brownian stub) and step counts (sdeint + ReverseBrownian)',
-         "The reverse step (same step function on the negated, time-reversed SDE with negated extra state) applied to a forward step's output returns (y, f, g, z) to 1e-12 for every grid increment, from a generic extra state; multi-step solves are reconstructed to rounding scaled by the measured amplification of the reverse recursion.",
+         "The reverse step (same step function on the negated, time-reversed SDE with negated extra state) applied to a forward step's output returns (y, f, g, z) to 1e-12 for every grid increment, from a generic extra state, also when the step is shorter than the solver's nominal dt; irregular grids with carried extra state and multi-step solves are reconstructed to rounding scaled by the measured amplification of the reverse recursion.",
          "identity checked numerically on the program alphabet, not symbolically in f and g"),
  'C17': ('exploration', 'C+D', 'exhaustive enumeration of special-noise programs x general embeddings x solvers accepting both',
          "diagonal, scalar and additive programs and their d x m general embeddings give the same solution (1e-13; observed identical) under equal-entropy Brownian motions for euler, euler_heun, heun, midpoint, reversible_heun and log_ode with Davie and Foster areas, batch 1 and 3, aligned and unaligned dt.",
          "program alphabet of mc/zoo.py"),
  'C18': ('exploration', 'C+D', 'exhaustive enumeration of cells x output-time subsets x dt against a harness-built augmented system and an exact family',
-         "For every supported cell: logqp has shape (len(ts)-1, batch), is non-negative, additive over refinements of ts, equals the integral of 1/2|g^+(f-h)|^2 accumulated by the same solver on an augmented system written by the harness, equals 1/2|c|^2 dt exactly when f-h=g c, and the state trajectory is torch.equal to the run without logqp under the same noise.",
+         "For every supported cell: logqp has shape (len(ts)-1, batch), is non-negative, additive over refinements of ts, equals the integral of 1/2|g^+(f-h)|^2 accumulated by the same solver on an augmented system written by the harness, equals 1/2|c|^2 dt exactly when f-h=g c (incl. negative diagonal diffusion entries), and the state trajectory is torch.equal to the run without logqp under the same noise.",
          "program alphabet; diagonal noise uses a proxy Brownian motion whose first d channels are the original"),
  'C20': ('exploration', 'C+A', 'exhaustive enumeration of rows x perturbations x permutations (bitwise) and of every element of every noise draw through the numeric-table seam',
-         "For every supported cell and batch 2-3: perturbing another row of y0 or of any noise draw leaves a row bit-identical, permuting rows permutes outputs. On the Brownian side, for every Levy mode, shape and cache size, perturbing any single element of any W-, H- or Levy-noise draw moves only the entries the property allows.",
+         "For every supported cell and batch 2-3: perturbing another row of y0 or of any noise draw leaves a row bit-identical (one noise element never moves two rows), permuting rows permutes outputs. On the Brownian side, for every Levy mode, shape and cache size, perturbing any single element of any W-, H- or Levy-noise draw moves only the entries the property allows.",
          "row-wise SDE programs; sizes as stated (exhaustive for those sizes)"),
  'C01': ('exploration', 'C+D', 'exhaustive enumeration of cells x closed-form problems x dyadic dt ladder over fixed path sets; composition check; adaptive tolerance ladder',
          "For every supported cell the RMS error against the closed-form solution evaluated on the same Brownian path, over 1024 fixed paths, decays along dt = 2^-3..2^-7 (thorough 2^-9, 4 path sets) with least-squares slope >= advertised order - 0.3 (healthy cells observed within 0.11), the N-step solve is bitwise the composition of step on its recorded increments, and adaptive errors do not grow as tolerances tighten. Together with C02 (local obligations at exactly the advertised order), C12 and C03/C04 this gives the order claim via Milstein's fundamental theorem.",
          "the limit dt->0 and the expectation over Wiener measure are not enumerable: the ladder is a bounded witness on fixed paths"),
  'C02': ('exploration', 'D', 'exhaustive enumeration of cells x programs x base points x Gauss-Hermite increment grids x eps ladder through the real step with a scripted Brownian stub; oracle = Kloeden-Platen strong Taylor expansion from explicit nested Jacobians',
-         "For every supported cell (incl. grad-free Milstein, log-ODE with Levy area input) the quadrature norm over all increment nodes of step - Taylor_p decays with slope >= 2p+1/2 in sqrt(h) (observed exactly 2p+1), |E step - E exact| with slope >= 2p+3/2 (observed 2p+2 or machine zero), at p = the solver's advertised strong order (which must equal the documented one); Euler and derivative Milstein equal their textbook formulas to 1e-13. With 7 nodes per dW coordinate (thorough) vanishing on the grid is vanishing identically for the polynomial coefficients involved.",
+         "For every supported cell (incl. grad-free Milstein, log-ODE with Levy area input) the quadrature norm over all increment nodes of step - Taylor_p decays with slope >= 2p+1/2 in sqrt(h) (observed exactly 2p+1), |E step - E exact| with slope >= 2p+3/2 (observed 2p+2 or machine zero), at p = the solver's advertised strong order (which must equal the documented one), with the solver's nominal dt equal to and three times the step taken; Euler and derivative Milstein equal their textbook formulas to 1e-13. With 7 nodes per dW coordinate (thorough) vanishing on the grid is vanishing identically for the polynomial coefficients involved.",
          "asymptotic statement checked on a finite eps ladder; program alphabet of mc/zoo.py (non-symmetric Jacobians, non-commuting columns, time dependence)"),
 }
 def main():
